@@ -23,7 +23,7 @@ PROFILES = {"C04": "simkit.profiles.c04", "C05": "simkit.profiles.c05", "C16": "
 
 # runs per tier (fixed counts; the wall cap only stops submission and is reported when it bites)
 TIERS = {
-    "C04": {"quick": (9700, 300), "thorough": (200000, 2400)},
+    "C04": {"quick": (9704, 300), "thorough": (200000, 2400)},
     "C05": {"quick": (42000, 300), "thorough": (1200000, 2400)},
     "C16": {"quick": (31000, 300), "thorough": (900000, 2400)},
 }
